@@ -546,6 +546,18 @@ class TransferManager(BaseManager):
         downloads, uploads = self._get_queued_transfers()
         free_upload_slots = self.get_free_upload_slots()
 
+        # Never start a second task for a transfer whose previous task has not
+        # finished yet: the handle would be overwritten and the previous task
+        # could no longer be cancelled when the transfer is aborted or paused
+        downloads = [
+            download for download in downloads
+            if download._remotely_queue_task is None or download._remotely_queue_task.done()
+        ]
+        uploads = [
+            upload for upload in uploads
+            if upload._transfer_task is None or upload._transfer_task.done()
+        ]
+
         # Downloads will just get remotely queued
         for download in downloads:
             download._remotely_queue_task = asyncio.create_task(
